@@ -240,7 +240,7 @@ theorem fltE_core (f : Field) (dec : Nat) (fmt c : Char) (hk : f.kind = .flt dec
     obtain ⟨m', e'⟩ := p
     rw [hnd] at hr
     simp only [Option.map_some, Option.some.injEq] at hr
-    obtain ⟨hok, hN1, hN2, hK1, hK2, hback, hself, hk'1, hk'2⟩ := sci_core m e hwf dec hdec m' e' hnd
+    obtain ⟨hok, hN1, hN2, hK1, hK2, hback, hself, hk'1, hk'2, hacc⟩ := sci_core m e hwf dec hdec m' e' hnd
     subst hr
     have hshape := fmtE_fin neg m' e' dec (fmt == 'E') hok.hm0 hN1 hN2
     have hlenN := natDigits_len _ _ hN1 hN2
